@@ -26,4 +26,14 @@ def run(tier, seed):
     items += [(Q.system_reset('C11'),), (Q.p_restore('C11'),)]
     items += [(D.declaration('C11', *D.GENBASE),), (D.declaration('C11', *D.LINE),)]
     run_contracts(pack, items)
+    from contracts.packutil import native_guard
+    from contracts import bounded_pu as BPU
+    name = 'C11/andes/system.py:System.calc_pu_coeff;Model.alter/bounded:v=vin*textbook-ratio-for-every-flagged-parameter'
+    r = native_guard(pack, name, BPU.run)
+    if r is not None:
+        n, bad = r
+        pack.bounded.append({'function': 'System.calc_pu_coeff / NumParam.set_pu_coeff / Model.alter (end to end)', 'parameters_checked': n,
+                             'kind': 'bounded native: %s + devices on foreign bases' % ', '.join(BPU.CASES), 'counted_as_proved': False})
+        if bad:
+            pack.violation(name, {'bounded': True, 'inputs': bad, 'native_cmd': 'contracts/bounded_pu.py'})
     return pack.finish()
